@@ -8,7 +8,10 @@ import (
 	"math/rand"
 	"os"
 	"path/filepath"
+	"regexp"
 	"sort"
+	"strconv"
+	"strings"
 
 	"github.com/EliCDavis/polyform/formats/obj"
 	"github.com/EliCDavis/polyform/modeling"
@@ -19,8 +22,9 @@ import (
 // ---- cases ---------------------------------------------------------------
 
 type AMat struct {
-	N int    `json:"n"`
-	M string `json:"m"` // "<nil>" = nil material
+	N  int      `json:"n"`
+	M  string   `json:"m"`  // "<nil>" = nil material
+	Mw []string `json:"mw"` // projection only: the items of the name (NameItems)
 }
 
 // AMesh: a mesh on the lattice, as the TLA+ generators print it.
@@ -98,6 +102,7 @@ type ObjCase struct {
 
 type SrcMesh struct {
 	Name string    `json:"name"`
+	Nw   []string  `json:"nw"` // the items of the name (NameItems)
 	Idx  []int     `json:"idx"`
 	Pos  [][][]int `json:"pos"`
 	Uv   [][][]int `json:"uv"`
@@ -121,7 +126,7 @@ func projMats(m modeling.Mesh) []AMat {
 		if mm.Material != nil {
 			name = mm.Material.Name
 		}
-		out = append(out, AMat{N: mm.PrimitiveCount, M: name})
+		out = append(out, AMat{N: mm.PrimitiveCount, M: name, Mw: NameItems(name)})
 	}
 	return out
 }
@@ -137,7 +142,7 @@ func projIdx(m modeling.Mesh) []int {
 
 // projSrc / projObs read a mesh through its public observers only.
 func projSrc(name string, m modeling.Mesh, enc Enc) SrcMesh {
-	p := SrcMesh{Name: name, Idx: projIdx(m), Pos: [][][]int{}, Uv: [][][]int{}, Nrm: [][][]int{}, Mats: projMats(m)}
+	p := SrcMesh{Name: name, Nw: NameItems(name), Idx: projIdx(m), Pos: [][][]int{}, Uv: [][][]int{}, Nrm: [][][]int{}, Mats: projMats(m)}
 	if m.HasFloat3Attribute(modeling.PositionAttribute) {
 		a := m.Float3Attribute(modeling.PositionAttribute)
 		for i := 0; i < a.Len(); i++ {
@@ -614,7 +619,7 @@ func runLd(id int, c ObjCase, keep string) ldLine {
 	if gen == nil {
 		gen = []Stmt{}
 	}
-	ln := ldLine{K: "ld", Id: id, Gen: gen, Stmts: []Stmt{}, Rd: []ObsMesh{}, Stmts2: []Stmt{}, Io: objIoName(c)}
+	ln := ldLine{K: "ld", Id: id, Gen: blindSkips(gen), Stmts: []Stmt{}, Rd: []ObsMesh{}, Stmts2: []Stmt{}, Io: objIoName(c)}
 	text := Render(gen, enc, c.Style)
 	if keep != "" {
 		_ = os.WriteFile(fmt.Sprintf("%s/case%d.obj", keep, id), text, 0o644)
@@ -685,6 +690,7 @@ func RunObjCases(in, out, keep string, budgetSeconds int) error {
 		if err := json.Unmarshal(sc.Bytes(), &c); err != nil {
 			return fmt.Errorf("case %d: %w", id, err)
 		}
+		decodeNames(&c)
 		setReps(c.Rep)
 		resetCaps()
 		cid := id
@@ -709,4 +715,48 @@ func RunObjCases(in, out, keep string, budgetSeconds int) error {
 		}
 	}
 	return sc.Err()
+}
+
+// ---- names (round 5) --------------------------------------------------------
+
+var uniPlaceholder = regexp.MustCompile(`<U\+([0-9A-F]{4,6})>`)
+
+// decodeName replaces the <U+XXXX> placeholders of a generated name by the
+// character they stand for (TLC's output is ASCII; specs/ObjNames.tla).
+func decodeName(s string) string {
+	if !strings.Contains(s, "<U+") {
+		return s
+	}
+	return uniPlaceholder.ReplaceAllStringFunc(s, func(m string) string {
+		n, err := strconv.ParseInt(m[3:len(m)-1], 16, 32)
+		if err != nil {
+			return m
+		}
+		return string(rune(n))
+	})
+}
+
+func decodeNames(c *ObjCase) {
+	for i := range c.Meshes {
+		c.Meshes[i].Name = decodeName(c.Meshes[i].Name)
+		for j := range c.Meshes[i].Mats {
+			c.Meshes[i].Mats[j].M = decodeName(c.Meshes[i].Mats[j].M)
+		}
+	}
+	for i := range c.Gen {
+		c.Gen[i].S = decodeName(c.Gen[i].S)
+	}
+}
+
+// blindSkips: a skip line ("x") of a generated text carries the text of the
+// line for the renderer; the tokeniser reports skip lines without their text.
+func blindSkips(gen []Stmt) []Stmt {
+	out := make([]Stmt, len(gen))
+	copy(out, gen)
+	for i := range out {
+		if out[i].T == "x" {
+			out[i].S = ""
+		}
+	}
+	return out
 }
